@@ -19,8 +19,8 @@ func init() {
 	common := func(id string, emphasis int, rule string) *Prop {
 		return &Prop{
 			ID: id, Quick: 4000, Thorough: 200000,
-			Gen: func(seed uint64, tier string) *plan.Plan { return genAgg(seed, tier, emphasis) },
-			Run: func(pl *plan.Plan, out *plan.Outcome) { runAgg(pl, out, id) },
+			Gen:  func(seed uint64, tier string) *plan.Plan { return genAgg(seed, tier, emphasis) },
+			Run:  func(pl *plan.Plan, out *plan.Outcome) { runAgg(pl, out, id) },
 			Real: []string{"pkg/intermediate AggregationProcess (AggregateMsgByFlowKey, ForAllExpiredFlowRecordsDo, GetRecords, GetNumFlows, GetExpiryFromExpirePriorityQueue, ResetStatAndThroughputElementsInRecord, ForAllRecordsDo), priority queue", "pkg/entities records", "pkg/registry"},
 			Stub: []string{"wall clock (synctest bubble: time.Now inside the process reads simulated time, deadlines can be hit exactly)", "the export callback (records what it is given, optionally resets, fails on plan-chosen invocations)"},
 			Rule: rule,
